@@ -463,7 +463,7 @@ Definition show_token (t : token) : string :=
 
 Definition token_eqb (a b : token) : bool := String.eqb (show_token a) (show_token b).
 
-(* run-length encoding of f over lo, lo+1, ..., lo+n-1 as "first-last:token" runs *)
+(* run-length encoding of f over lo, lo+1, ..., lo+n-1 as "first..last:token" runs *)
 Fixpoint rle_from (n : nat) (x : Z) (f : Z -> token) (cur : option (Z * token)) : list (Z * Z * token) :=
   match n with
   | O => match cur with Some (s, t) => [(s, x - 1, t)] | None => [] end
@@ -477,7 +477,7 @@ Fixpoint rle_from (n : nat) (x : Z) (f : Z -> token) (cur : option (Z * token)) 
   end.
 
 Definition show_run (r : Z * Z * token) : string :=
-  match r with (s, e, t) => show_Z s ++ "-" ++ show_Z e ++ ":" ++ show_token t end.
+  match r with (s, e, t) => show_Z s ++ ".." ++ show_Z e ++ ":" ++ show_token t end.
 
 Definition rle (lo : Z) (n : Z) (f : Z -> token) : string :=
   String.concat "," (map show_run (rle_from (Z.to_nat n) lo f None)).
